@@ -806,6 +806,90 @@ func c14R6(c *Ctx) {
 			"compared fields ⊇ {Off, Val, Mask}", "compared: "+strings.Join(keysOf(f), ", "))
 	}
 	c.Floor("C14.R6", "field-wise key comparisons", 1, len(keys))
+	// the same for a key compared with a wanted (offset, value, mask) triple that is not itself a key:
+	// whoever compares one field of a key directly with something compares all three directly
+	type one struct {
+		fn  *FuncInfo
+		key string
+	}
+	single := map[one]map[string]bool{}
+	where := map[one]ast.Node{}
+	for _, fn := range p.live() {
+		if fn.Decl.Body == nil {
+			continue
+		}
+		info := fn.Info()
+		isKeyField := func(x ast.Expr) (string, string, bool) {
+			sel, ok := ast.Unparen(x).(*ast.SelectorExpr)
+			if !ok {
+				return "", "", false
+			}
+			t := info.TypeOf(sel.X)
+			if t == nil || !(typeIs(t, "github.com/vishvananda/netlink", "TcU32Key") || typeIs(t, "github.com/vishvananda/netlink/nl", "TcU32Key")) {
+				return "", "", false
+			}
+			switch sel.Sel.Name {
+			case "Off", "Val", "Mask":
+				return exprString(sel.X), sel.Sel.Name, true
+			}
+			return "", "", false
+		}
+		mentionsKeyField := func(x ast.Expr) (string, bool) {
+			key, hit := "", false
+			ast.Inspect(x, func(k ast.Node) bool {
+				if e, ok := k.(ast.Expr); ok {
+					if kx, _, isF := isKeyField(e); isF {
+						key, hit = kx, true
+					}
+				}
+				return !hit
+			})
+			return key, hit
+		}
+		ast.Inspect(fn.Decl.Body, func(n ast.Node) bool {
+			be, ok := n.(*ast.BinaryExpr)
+			if !ok || (be.Op != token.EQL && be.Op != token.NEQ) {
+				return true
+			}
+			_, _, kx := isKeyField(be.X)
+			_, _, ky := isKeyField(be.Y)
+			if kx && ky {
+				return true // key against key: judged above
+			}
+			if info.Types[be.X].Value != nil || info.Types[be.Y].Value != nil {
+				return true // a classification by a constant (Off == 12), not an identity test
+			}
+			for _, side := range []ast.Expr{be.X, be.Y} {
+				if key, fld, isF := isKeyField(side); isF {
+					k := one{fn, key}
+					if single[k] == nil {
+						single[k] = map[string]bool{}
+						where[k] = be
+					}
+					single[k][fld] = true
+				} else if key, hit := mentionsKeyField(side); hit {
+					// a field of the key inside a computed operand (key.Val & mask): the key takes part in a
+					// comparison, but that field is not compared as it is
+					k := one{fn, key}
+					if single[k] == nil {
+						single[k] = map[string]bool{}
+						where[k] = be
+					}
+				}
+			}
+			return true
+		})
+	}
+	var ones []one
+	for k := range single {
+		ones = append(ones, k)
+	}
+	sort.Slice(ones, func(i, j int) bool { return where[ones[i]].Pos() < where[ones[j]].Pos() })
+	for _, k := range ones {
+		f := single[k]
+		c.Check(f["Off"] && f["Val"] && f["Mask"], "C14.R6", k.fn.Name+": key "+k.key+" matched on offset, value and mask as they are", p.Pos(where[k]), k.fn.Key(),
+			"directly compared fields ⊇ {Off, Val, Mask}", "compared: "+strings.Join(keysOf(f), ", "))
+	}
 }
 
 // R9: a table-qualified route names the table of its own link. Inside the pod
